@@ -1,6 +1,8 @@
 import NunavutVerif.Model.Bits
 import NunavutVerif.Model.BitsCpp
 import NunavutVerif.Model.BitsPy
+import NunavutVerif.Model.BitsPyArgs
+import NunavutVerif.Model.BitsGlue
 import NunavutVerif.Proto
 /-!
 Driver for the C14 correspondence (integer/bit part).  One request per line, tokens separated by one space,
@@ -39,6 +41,18 @@ Python (`nunavut_support.py`; a serializer / deserializer state is `<buf> <bit o
   `p.f_au<W>|p.f_ai<W> <buf> <off>`                                     → `ok <value> <off'>`
   `p.f_pad <buf> <off> <n>`                                             → `ok <off'>`
   `p.slice <buf> <left> <right>` → `ok <bytes>`;  `p.byte <buf> <i>` → `ok <n>`
+Round 2 (typed arguments `<value>:<type>`, type = int | bool | npbool | i8 | i16 | i32 | i64 | u8 | u16 | u32 | u64; NumPy = `Py.numpy2`)
+  `pv.add_uu|pv.add_us|pv.add_auns|pv.add_asig <buf> <off> <value>:<type> <bits>`, `pv.add_au<W>|pv.add_ai<W> <buf> <off> <value>:<type>`,
+  `pv.add_ubit <buf> <off> <value>:<type>`, `pv.us_noint|pv.asig_noint …` (signed helpers before fix 2f4c1c9)  → `ok <buf'> <off'>`
+  `min <a> <b>`; `setf<W>[_le] <buf> <size> <off> <pattern>` → `ok <rc> <buf'>`; `getf<W>[_le] <buf> <size> <off>` → `ok <pattern>`
+  `x.info <d> <off> <a>` → `ok <size> <offset> <offset_bytes> <offset_bytes_ceil> <misalignment> <aligns> <aligns to byte>`
+  `x.atoff <d> <off> <bits>` → `ok <off'> <size'>`; `x.sub1 <d> <off> <bits>` / `x.subbytes <d> <off> <n>` → `ok <off'> <size'> <first 64 bits>`
+  `x.aref <d> <off> <plus>` → `ok <byte index> <byte>`; `x.copyall <dst> <dOff> <src> <sOff>`; `x.zeroall <d> <off>`; `x.align<n> <off>` → `ok <off'>`
+  `x.setf<W> <d> <off> <pattern>`, `x.getf<W> <d> <off>`
+  `p.new <n>`, `p.buffer <buf> <off>`, `p.skip <buf> <off> <n>`, `p.fork <buf> <off> <k>`, `p.forkadd <buf> <off> <k> <value> <bits>`
+  `p.addf_a|p.addf_u|p.addstd_a|p.addstd_u <buf> <off> <bytes>`, `p.ff_a|p.ff_u <buf> <off> <W>`, `p.fstd_a|p.fstd_u <buf> <off> <itemsize> <count>`
+  `p.zeb <frag,frag,…>`, `p.bytez <buf> <i>`, `p.slicez <buf> <l> <r>`, `p.zfork <buf> <o> <l>`, `p.dfork <buf> <off> <k>`,
+  `p.remaining <buf> <off>`, `p.dskip <buf> <off> <n>`, `p.fz_abytes|fz_abits|fz_ubits|fz_auns|fz_uu <buf> <off> <count>` (any integer)
 Any model error is answered `err:<kind>` (`oob`, `fuel`, `wrap`, `overflow`, `usage`); malformed lines `bad-op`.
 -/
 open NunavutVerif NunavutVerif.Bits NunavutVerif.Proto
@@ -243,10 +257,183 @@ def answerPy (toks : List String) : Option String :=
         | _ => none
   | _ => none
 
+def parseKind (t : String) : Option Py.NpKind :=
+  if t = "i8" then some .i8 else if t = "i16" then some .i16 else if t = "i32" then some .i32 else if t = "i64" then some .i64
+  else if t = "u8" then some .u8 else if t = "u16" then some .u16 else if t = "u32" then some .u32 else if t = "u64" then some .u64
+  else none
+
+/-- `<value>:<type>`; a NumPy scalar must hold a value of its type -/
+def parseVal (t : String) : Option Py.PyVal :=
+  match t.splitOn ":" with
+  | [v] => v.toInt?.map Py.PyVal.int
+  | [v, ty] => do
+    let v ← v.toInt?
+    if ty = "int" then some (.int v)
+    else if ty = "bool" then (if v = 0 then some (.bool false) else if v = 1 then some (.bool true) else none)
+    else if ty = "npbool" then (if v = 0 then some (.npbool false) else if v = 1 then some (.npbool true) else none)
+    else do
+      let k ← parseKind ty
+      if k.fits v then some (.np k v) else none
+  | _ => none
+
+def first64 (sp : Cpp.Span) : String :=
+  let n := min sp.size 64
+  showE toHex (Cpp.getBits sp (List.replicate 8 0) n)
+
+def answerExt (toks : List String) : Option String :=
+  let np := Py.numpy2
+  match toks with
+  | ["min", a, b] => do
+    let a ← a.toNat?; let b ← b.toNat?
+    some ("ok " ++ toString (chooseMin a b))
+  | ["p.new", n] => n.toNat?.map fun n => "ok " ++ showSer (Py.Ser.new n)
+  | ["p.zeb", frags] => do
+    let fs ← (if frags = "!" then some [] else (frags.splitOn ",").mapM parseHex)
+    let b := Py.zebNew fs
+    some s!"ok {toHex b} {Py.zebBitLength b}"
+  | [op, a1, a2] => do
+    if op = "p.buffer" then
+      let buf ← parseHex a1; let off ← a2.toNat?
+      some ("ok " ++ toHex (Py.bufferView ⟨buf, off⟩))
+    else if op = "p.remaining" then
+      let buf ← parseHex a1; let off ← a2.toNat?
+      some s!"ok {Py.consumedBitLength ⟨buf, off⟩} {Py.remainingBitLength ⟨buf, off⟩}"
+    else if op = "p.bytez" then
+      let buf ← parseHex a1; let i ← a2.toInt?
+      some (showE toString (Py.getByteZ buf i))
+    else if op = "x.zeroall" then
+      let d ← parseHex a1; let off ← a2.toNat?
+      some (showE showRcBuf (Cpp.setZerosAll ⟨d, off⟩))
+    else
+      match splitOp op "x.getf" with
+      | some (W, false) => do
+        let d ← parseHex a1; let off ← a2.toNat?
+        some (showE toString (Cpp.getF W ⟨d, off⟩))
+      | _ => none
+  | [op, a1, a2, a3] => do
+    if op = "p.skip" then
+      let buf ← parseHex a1; let off ← a2.toNat?; let n ← a3.toInt?
+      some (showE showSer (Py.skipBitsZ ⟨buf, off⟩ n))
+    else if op = "p.fork" then
+      let buf ← parseHex a1; let off ← a2.toNat?; let k ← a3.toNat?
+      some (showE showSer (Py.forkBytes ⟨buf, off⟩ k))
+    else if op = "p.slicez" then
+      let buf ← parseHex a1; let l ← a2.toInt?; let r ← a3.toInt?
+      some (showE toHex (Py.getUnsignedSliceZ buf l r))
+    else if op = "p.zfork" then
+      let buf ← parseHex a1; let o ← a2.toNat?; let l ← a3.toNat?
+      some (showE toHex (Py.zebForkBytes buf o l))
+    else if op = "p.dfork" then
+      let buf ← parseHex a1; let off ← a2.toNat?; let k ← a3.toNat?
+      some (showE (fun (f : Py.De) => s!"{toHex f.buf} {Py.remainingBitLength f}") (Py.deForkBytes ⟨buf, off⟩ k))
+    else if op = "p.dskip" then
+      let buf ← parseHex a1; let off ← a2.toNat?; let n ← a3.toInt?
+      some (showE (fun (d : Py.De) => toString d.off) (Py.deSkipBitsZ ⟨buf, off⟩ n))
+    else if op = "p.fz_abytes" ∨ op = "p.fz_abits" ∨ op = "p.fz_ubits" ∨ op = "p.fz_auns" ∨ op = "p.fz_uu" then
+      let buf ← parseHex a1; let off ← a2.toNat?; let n ← a3.toInt?
+      let d : Py.De := ⟨buf, off⟩
+      if op = "p.fz_abytes" then some (showE (showFetch toHex) (Py.fetchZ Py.fetchAlignedBytes d n))
+      else if op = "p.fz_abits" then some (showE (showFetch showBits) (Py.fetchZ Py.fetchAlignedArrayOfBits d n))
+      else if op = "p.fz_ubits" then some (showE (showFetch showBits) (Py.fetchZ Py.fetchUnalignedArrayOfBits d n))
+      else if op = "p.fz_auns" then some (showE (showFetch toString) (Py.fetchZ Py.fetchAlignedUnsigned d n))
+      else some (showE (showFetch toString) (Py.fetchZ Py.fetchUnalignedUnsigned d n))
+    else if op = "p.addf_a" ∨ op = "p.addf_u" ∨ op = "p.addstd_a" ∨ op = "p.addstd_u" then
+      let buf ← parseHex a1; let off ← a2.toNat?; let bytes ← parseHex a3
+      if op = "p.addf_a" ∨ op = "p.addf_u" then some (showE showSer (Py.addFloat (op = "p.addf_a") ⟨buf, off⟩ bytes))
+      else some (showE showSer (Py.addStdArray (op = "p.addstd_a") ⟨buf, off⟩ bytes))
+    else if op = "p.ff_a" ∨ op = "p.ff_u" then
+      let buf ← parseHex a1; let off ← a2.toNat?; let W ← a3.toNat?
+      some (showE (showFetch toHex) (Py.fetchFloat (op = "p.ff_a") ⟨buf, off⟩ W))
+    else if op = "pv.add_ubit" then
+      let buf ← parseHex a1; let off ← a2.toNat?; let x ← parseVal a3
+      some (showE showSer (Py.addUnalignedBitV np ⟨buf, off⟩ x))
+    else if op = "x.info" then
+      let d ← parseHex a1; let off ← a2.toNat?; let a ← a3.toNat?
+      let sp : Cpp.Span := ⟨d, off⟩
+      match Cpp.offsetMisalignment sp a, Cpp.offsetAlignsTo sp a, Cpp.offsetAlignsTo sp 8 with
+      | .ok m, .ok al, .ok al8 =>
+        some s!"ok {sp.size} {sp.off} {Cpp.offsetBytes sp} {Cpp.offsetBytesCeil sp} {m} {if al then 1 else 0} {if al8 then 1 else 0}"
+      | _, _, _ => some "err:usage"
+    else if op = "x.atoff" then
+      let d ← parseHex a1; let off ← a2.toNat?; let bits ← a3.toNat?
+      let r := Cpp.atOffset ⟨d, off⟩ bits
+      some s!"ok {r.off} {r.size}"
+    else if op = "x.sub1" then
+      let d ← parseHex a1; let off ← a2.toNat?; let bits ← a3.toNat?
+      let r := Cpp.subspan1 ⟨d, off⟩ bits
+      some s!"ok {r.off} {r.size} {first64 r}"
+    else if op = "x.subbytes" then
+      let d ← parseHex a1; let off ← a2.toNat?; let n ← a3.toNat?
+      let r := Cpp.subspanBytes ⟨d, off⟩ n
+      some s!"ok {r.off} {r.size} {first64 r}"
+    else if op = "x.aref" then
+      let d ← parseHex a1; let off ← a2.toNat?; let plus ← a3.toNat?
+      some (showE (fun (b : Nat) => s!"{Cpp.alignedPtr ⟨d, off⟩ plus} {b}") (Cpp.alignedRef ⟨d, off⟩ plus))
+    else
+      match splitOp op "x.setf", a3.toNat? with
+      | some (W, false), some bits => do
+        let d ← parseHex a1; let off ← a2.toNat?
+        some (showE showRcBuf (Cpp.setF W ⟨d, off⟩ bits))
+      | _, _ =>
+        match splitOp op "getf" with
+        | some (W, le) => do
+          let buf ← parseHex a1; let size ← a2.toNat?; let off ← a3.toNat?
+          some (showE toString (getF le W buf size off))
+        | none =>
+          match splitOp op "pv.add_au", parseVal a3 with
+          | some (W, false), some x => do
+            let buf ← parseHex a1; let off ← a2.toNat?
+            let s : Py.Ser := ⟨buf, off⟩
+            some (showE showSer (if W = 8 then Py.addAlignedU8V np s x else if W = 16 then Py.addAlignedU16V np s x
+              else if W = 32 then Py.addAlignedU32V np s x else Py.addAlignedU64V np s x))
+          | _, _ =>
+            match splitOp op "pv.add_ai", parseVal a3 with
+            | some (W, false), some x => do
+              let buf ← parseHex a1; let off ← a2.toNat?
+              some (showE showSer (Py.addAlignedIV np W ⟨buf, off⟩ x))
+            | _, _ => none
+  | [op, a1, a2, a3, a4] => do
+    if op = "pv.add_uu" ∨ op = "pv.add_us" ∨ op = "pv.add_auns" ∨ op = "pv.add_asig" ∨ op = "pv.us_noint" ∨ op = "pv.asig_noint" then
+      let buf ← parseHex a1; let off ← a2.toNat?; let x ← parseVal a3; let bl ← a4.toNat?
+      let s : Py.Ser := ⟨buf, off⟩
+      if op = "pv.add_uu" then some (showE showSer (Py.addUnalignedUnsignedV np s x bl))
+      else if op = "pv.add_us" then some (showE showSer (Py.addUnalignedSignedV np s x bl))
+      else if op = "pv.add_auns" then some (showE showSer (Py.addAlignedUnsignedV np s x bl))
+      else if op = "pv.add_asig" then some (showE showSer (Py.addAlignedSignedV np s x bl))
+      else some (showE showSer (Py.addSignedNoInt np (op = "pv.asig_noint") s x bl))
+    else if op = "p.fstd_a" ∨ op = "p.fstd_u" then
+      let buf ← parseHex a1; let off ← a2.toNat?; let isz ← a3.toNat?; let cnt ← a4.toNat?
+      some (showE (showFetch toHex) (Py.fetchStdArray (op = "p.fstd_a") ⟨buf, off⟩ isz cnt))
+    else if op = "x.copyall" then
+      let dst ← parseHex a1; let dOff ← a2.toNat?; let src ← parseHex a3; let sOff ← a4.toNat?
+      some (showE toHex (Cpp.copyToAll ⟨src, sOff⟩ ⟨dst, dOff⟩))
+    else
+      match splitOp op "setf", a4.toNat? with
+      | some (W, le), some bits => do
+        let buf ← parseHex a1; let size ← a2.toNat?; let off ← a3.toNat?
+        some (showE showRcBuf (setF le W buf size off bits))
+      | _, _ => none
+  | ["p.forkadd", buf, off, k, value, bl] => do
+    let buf ← parseHex buf; let off ← off.toNat?; let k ← k.toNat?; let value ← value.toInt?; let bl ← bl.toNat?
+    let s : Py.Ser := ⟨buf, off⟩
+    some (showE showSer (do
+      let f ← Py.forkBytes s k
+      let f' ← Py.addUnalignedUnsigned f value bl
+      let s' ← Py.skipBitsZ ⟨Py.joinFork s f', s.off⟩ f'.off
+      pure s'))
+  | [op, off] =>
+    match splitOp op "x.align", off.toNat? with
+    | some (W, false), some o => some s!"ok {(Cpp.alignOffsetTo W ⟨[], o⟩).off}"
+    | _, _ => none
+  | _ => none
+
 end BitsDriver
 
 def answer (line : String) : String :=
   let toks := line.splitOn " "
+  match BitsDriver.answerExt toks with
+  | some a => a
+  | none =>
   match BitsDriver.answerC toks with
   | some a => a
   | none =>
